@@ -345,6 +345,18 @@ pub fn check_dyn(c: &DynCase) -> Verdict {
     v
 }
 
+/// scripted targets on documents with xsi:nil attributes, namespace (re)declarations, skipped
+/// subtrees (c14::nil_template), mutated
+pub fn dyn_nil_strategy() -> BoxedStrategy<DynCase> {
+    (prop::collection::vec((0u8..2, any::<u16>(), any::<u16>(), any::<u16>()), 1..6), any::<u16>(), prop::collection::vec(any::<u8>(), 0..48), prop::collection::vec(edit_strategy(), 0..3), prop::option::of(prop::collection::vec(0usize..300, 0..6)))
+        .prop_map(|(items, rootsel, choices, edits, cuts)| {
+            let doc = super::c14::nil_template(&items, rootsel);
+            let script = crate::dynde::script_from_doc(&doc, &choices);
+            DynCase { script, input: apply_edits(&doc, &edits), cuts }
+        })
+        .boxed()
+}
+
 pub fn dyn_case_strategy(soup: bool) -> BoxedStrategy<DynCase> {
     let cuts = prop_oneof![2 => Just(None), 1 => Just(Some(vec![])), 1 => (1usize..8).prop_map(|k| Some((1..200).map(|i| i * k).collect::<Vec<usize>>())), 1 => prop::collection::vec(0usize..300, 0..8).prop_map(Some)];
     if soup {
@@ -657,6 +669,7 @@ fn run(ctx: &Ctx) {
     // script and the document agree deeply), driven through a visitor that accepts everything
     ctx.run_proptest_with("scripted-targets-x-mutated-documents", ctx.tier.pick(1_500_000, 12_000_000), || Box::new(dyn_case_strategy(false)), check_dyn);
     ctx.run_proptest_with("scripted-targets-x-token-soup", ctx.tier.pick(500_000, 4_000_000), || Box::new(dyn_case_strategy(true)), check_dyn);
+    ctx.run_proptest_with("scripted-targets-x-nil-documents", ctx.tier.pick(400_000, 3_000_000), || Box::new(dyn_nil_strategy()), check_dyn);
     let special: Vec<&str> = VOCAB.iter().copied().filter(|w| w.starts_with("<!") || w.starts_with("<?") || w.starts_with('&') || w.contains("nil") || *w == "</>" || *w == "<>" || w.starts_with("<![")).collect();
     ctx.run_groups(
         "one-special-token-at-every-boundary",
